@@ -2,10 +2,10 @@ package main
 
 import (
 	"fmt"
-	"os"
 	"go/constant"
 	"go/token"
 	"go/types"
+	"os"
 	"sort"
 	"strings"
 
@@ -31,12 +31,13 @@ var reflNeedKind = map[string][]string{
 }
 
 type reflState struct {
-	c     *Ctx
-	na    *nilAnalysis
-	kinds map[string]int64 // name -> constant
-	names map[int64]string
+	c            *Ctx
+	na           *nilAnalysis
+	kinds        map[string]int64 // name -> constant
+	names        map[int64]string
 	retFromParam map[*ssa.Function]int
 	retValidMemo map[*ssa.Function]bool
+	predMemo     map[*ssa.Function]map[bool][][]Cond
 }
 
 func isReflectValue(t types.Type) bool {
@@ -191,6 +192,79 @@ func (rs *reflState) install() {
 			}
 		}
 		return n, true
+	}
+	// a helper predicate over reflect.Values (`isPtrOrInterface(v)`): each path through it that yields the outcome refines
+	// the caller's facts about the argument as the same tests written in place would
+	na.hookPredicate = func(d disj, c Cond) ([]disj, bool) {
+		call, ok := c.V.(*ssa.Call)
+		if !ok {
+			return nil, false
+		}
+		if _, _, _, isRM := reflMethod(call); isRM {
+			return nil, false
+		}
+		g := call.Call.StaticCallee()
+		if g == nil || !rs.c.P.inModule(g) || len(g.Blocks) == 0 || g.Signature.Results().Len() != 1 || !isBoolType(g.Signature.Results().At(0).Type()) {
+			return nil, false
+		}
+		hasRV := false
+		for _, prm := range g.Params {
+			if isReflectValue(prm.Type()) {
+				hasRV = true
+			}
+		}
+		if !hasRV {
+			return nil, false
+		}
+		exp := rs.predicatePaths(g)
+		if exp == nil {
+			return nil, false
+		}
+		var out []disj
+		for _, seq := range exp[c.True] {
+			n := d.clone()
+			// the helper's parameter may be named like a value of the caller: the caller's facts under that key are set
+			// aside while the helper's conditions are applied
+			for i, prm := range g.Params {
+				if isReflectValue(prm.Type()) && i < len(call.Call.Args) {
+					pk := reflKey(prm)
+					rs.clearFacts(n, "saved$"+pk)
+					rs.copyFacts(n, d, pk, "saved$"+pk)
+					rs.clearFacts(n, pk)
+					rs.copyFacts(n, d, reflKey(call.Call.Args[i]), pk)
+				}
+			}
+			feasible := true
+			for _, cd := range seq {
+				n2, handled := na.hookRefine(n, cd)
+				if !handled {
+					continue
+				}
+				if n2 == nil {
+					feasible = false
+					break
+				}
+				n = n2
+			}
+			if !feasible {
+				continue
+			}
+			for i, prm := range g.Params {
+				if isReflectValue(prm.Type()) && i < len(call.Call.Args) {
+					ak, pk := reflKey(call.Call.Args[i]), reflKey(prm)
+					tmp := n.clone()
+					if ak != pk {
+						rs.clearFacts(n, ak)
+						rs.copyFacts(n, tmp, pk, ak)
+						rs.clearFacts(n, pk)
+						rs.copyFacts(n, tmp, "saved$"+pk, pk)
+					}
+					rs.clearFacts(n, "saved$"+pk)
+				}
+			}
+			out = append(out, n)
+		}
+		return out, true
 	}
 	// a helper's interface / pointer parameter is non-nil when every call site lies on the non-nil side of a nil test
 	// of the very argument (the caller tested, the helper converts)
@@ -446,6 +520,25 @@ func (rs *reflState) retParam(g *ssa.Function) (int, bool) {
 		case *ssa.Call:
 			nm := calleeName(x)
 			if nm != "reflect.MakeSlice" && nm != "reflect.Append" {
+				okAll = false
+			}
+		case *ssa.Extract:
+			// the first result of a helper that itself hands its parameter back (a case split off into a method)
+			call, isCall := x.Tuple.(*ssa.Call)
+			if !isCall || x.Index != 0 {
+				okAll = false
+				return
+			}
+			h := call.Call.StaticCallee()
+			if h == nil || h == g {
+				if h == nil {
+					okAll = false
+				}
+				return
+			}
+			if jj, ok := rs.retParam(h); ok && jj < len(call.Call.Args) {
+				visit(call.Call.Args[jj], seen)
+			} else {
 				okAll = false
 			}
 		default:
@@ -1180,4 +1273,107 @@ func c14EveryValuedVariableWritten(c *Ctx, r *RuleResult, vv *ssa.Function) {
 	} else {
 		r.OK(fmt.Sprintf("VariableValues: %d paths through one iteration", paths), "every one that ends with 'has a value' true has written result[name]")
 	}
+}
+
+// predicatePaths: g is a loop-free function without effects that returns a bool computed from tests of its
+// reflect.Value parameters; for each outcome, the condition sequences of the paths that produce it. nil if g is not
+// of that form.
+func (rs *reflState) predicatePaths(g *ssa.Function) map[bool][][]Cond {
+	if rs.predMemo == nil {
+		rs.predMemo = map[*ssa.Function]map[bool][][]Cond{}
+	}
+	if v, ok := rs.predMemo[g]; ok {
+		return v
+	}
+	rs.predMemo[g] = nil
+	if hasAnyLoop(g) {
+		return nil
+	}
+	pure := true
+	allInstrs(g, func(in ssa.Instruction) {
+		switch x := in.(type) {
+		case *ssa.BinOp, *ssa.UnOp, *ssa.Phi, *ssa.If, *ssa.Jump, *ssa.Return, *ssa.DebugRef, *ssa.ChangeType, *ssa.Convert:
+		case *ssa.Call:
+			if _, _, _, ok := reflMethod(x); !ok {
+				// reflect.Type.Kind() on v.Type()
+				if !(x.Call.IsInvoke() && x.Call.Method.Name() == "Kind") {
+					pure = false
+				}
+			}
+		default:
+			pure = false
+		}
+	})
+	if !pure {
+		return nil
+	}
+	out := map[bool][][]Cond{}
+	n := 0
+	var walk func(b, prev *ssa.BasicBlock, seq []Cond, phis map[*ssa.Phi]ssa.Value)
+	walk = func(b, prev *ssa.BasicBlock, seq []Cond, phis map[*ssa.Phi]ssa.Value) {
+		if n > 64 {
+			return
+		}
+		np := map[*ssa.Phi]ssa.Value{}
+		for k, v := range phis {
+			np[k] = v
+		}
+		for _, in := range b.Instrs {
+			if ph, ok := in.(*ssa.Phi); ok && prev != nil {
+				for i, pd := range b.Preds {
+					if pd == prev {
+						np[ph] = ph.Edges[i]
+					}
+				}
+			}
+		}
+		resolve := func(v ssa.Value) ssa.Value {
+			for i := 0; i < 8; i++ {
+				ph, ok := v.(*ssa.Phi)
+				if !ok {
+					return v
+				}
+				e, ok := np[ph]
+				if !ok {
+					return v
+				}
+				v = e
+			}
+			return v
+		}
+		switch t := b.Instrs[len(b.Instrs)-1].(type) {
+		case *ssa.Return:
+			n++
+			v := resolve(t.Results[0])
+			if cst, ok := v.(*ssa.Const); ok && cst.Value != nil {
+				o := cst.Value.String() == "true"
+				out[o] = append(out[o], append([]Cond{}, seq...))
+				return
+			}
+			out[true] = append(out[true], append(append([]Cond{}, seq...), normCond(Cond{V: v, True: true})))
+			out[false] = append(out[false], append(append([]Cond{}, seq...), normCond(Cond{V: v, True: false})))
+		case *ssa.If:
+			cv := resolve(t.Cond)
+			if cst, ok := cv.(*ssa.Const); ok && cst.Value != nil {
+				if cst.Value.String() == "true" {
+					walk(b.Succs[0], b, seq, np)
+				} else {
+					walk(b.Succs[1], b, seq, np)
+				}
+				return
+			}
+			walk(b.Succs[0], b, append(append([]Cond{}, seq...), normCond(Cond{V: cv, True: true})), np)
+			walk(b.Succs[1], b, append(append([]Cond{}, seq...), normCond(Cond{V: cv, True: false})), np)
+		default:
+			for _, sc := range b.Succs {
+				walk(sc, b, seq, np)
+			}
+		}
+	}
+	walk(g.Blocks[0], nil, nil, map[*ssa.Phi]ssa.Value{})
+	if n > 64 || n == 0 {
+		return nil
+	}
+	rs.predMemo[g] = out
+	return out
 }
